@@ -28,6 +28,6 @@ class Stm(Opcode):
                         address = add(address, 0b100, 32)
                         write_count += 1
                 if bit_at(self.registers, 15):
-                    processor.mem_a_set(address, 4, processor.registers.pc_store_value())
+                    processor.mem_a_set(address, 4, processor.registers.get_pc())
                 if self.wback:
                     processor.registers.set(self.n, add(processor.registers.get(self.n), 4 * write_count, 32))
